@@ -252,6 +252,23 @@ pub fn c01(a: &Args) -> Ctx {
             }
         }
     }
+    // big populations: one chain of several thousand keys (1-bucket table), and more entries than 65536
+    if a.shard == 2 || a.shard == 3 {
+        let (pool, buckets, ops) = if a.shard == 2 { (6000usize, Buckets::Size(1), 14_000usize) } else { (70_000, Buckets::Capacity(70_000), 160_000) };
+        let mut p = Profile::base(pool, ops);
+        p.max_val = 40;
+        p.max_key = 24;
+        p.large_pct = 0;
+        p.w_put = 70;
+        p.w_del = 10;
+        let kt = if a.seed % 2 == 0 { "u64" } else { "bytes" };
+        let mut gen = Gen::new(rng.next(), &ed);
+        let h = gen_history_kt(kt, &mut gen, &p, Cfg { buckets, key: Buf::PerMille(1000), val: Buf::Auto, htx: Buf::PerMille(1000) }, &format!("c01 big population pool={pool} shard={}", a.shard));
+        ctx.count("big_population_histories", 1);
+        if run_and_record(a, &h, &mon, &mut ctx, "big") {
+            return ctx;
+        }
+    }
     for i in 0..n_hist {
         let kt = pick_kt(&mut rng, 60);
         let p = c01_profile(&mut rng, n_ops, a.thorough);
